@@ -1099,4 +1099,46 @@ example : FullId ⟨1, 1⟩ 11 := by
     rw [e] at this; exact this
   exact ⟨by show 1 < 64; omega, by rw [h]; show (1 + 1) * 2 ^ 1 ≤ 7; omega, by rw [h]; omega⟩
 
+/-! ## Height-0 segments (one leaf per segment) — where completeness holds and where it does not
+
+Without a bitmap (`segment_complete`, `FitId` allows height 0) every honest height-0 segment of an
+unpruned MMR validates.  WITH a bitmap the exact statement is
+
+    validate(from_pmmr((0, i), V, prunable), size, Some(b), root) = Ok
+      ↔  required (some b) size (mmr i)          -- b i ∨ b (sibling of i) ∨ mmr i = size − 1
+
+for a source on which nothing in the range is compacted: if the leaf is not required, `Segment::root`
+answers `Ok(None)` (the one-leaf range has no root of its own), `first_unpruned_parent` walks up
+from a segment that carries the leaf's DATA but no hash, and ends in `MissingHash(parent)`.  The
+direction "required → accepted" for every `i` and the refusal for every unrequired `i` are NOT
+proven in general (the lemmas of `Lemmas/SegPruned*.lean` use `1 ≤ height` for "every leaf has its
+sibling inside the range"); what is proven is the witness below — the smallest instance of the
+refusal — and the accepted neighbours of it.  The seg runs `vec`, `store`, `leafless`, `ancestor`
+drive height 0 on the real code (class `height0-both-unmarked` compared with the model). -/
+
+/-- a hash function over numbers for the concrete height-0 instances -/
+def h0HF : HashFn Nat Nat := ⟨fun i x => 7 * x + i + 1, fun i l r => 1000 * l + 31 * r + i⟩
+
+/-- verdict of `validate` on the honest height-0 segment `i` of the unpruned MMR of `xs` -/
+def h0Verdict (xs : List Nat) (i : Nat) (b : Nat → Bool) : Option (Res Unit) :=
+  match fromPmmr h0HF (vecView (Spec.Mmr.hashes h0HF xs) xs) ⟨0, i⟩ true, Spec.Mmr.root h0HF xs with
+  | .ok s, some r => some (s.validate h0HF (mmr xs.length) (some b) r)
+  | _, _ => none
+
+/-- **Witness: completeness FAILS at height 0.**  The 2-leaf MMR, both leaves spent, nothing
+compacted: the segment `(0, 0)` a node produces for itself is refused with `MissingHash(2)` (the
+parent of the two leaves) — by `validate` and already by `first_unpruned_parent`. -/
+theorem segment_complete_height0_partial :
+    h0Verdict [10, 11] 0 (fun _ => false) = some (.err (.missingHash 2)) ∧
+    -- … while it is accepted as soon as the leaf, or its sibling, is unspent, and the lone last leaf
+    -- of an odd MMR is accepted although it is spent (it is the last position)
+    h0Verdict [10, 11] 0 (fun j => j == 0) = some (.ok ()) ∧
+    h0Verdict [10, 11] 0 (fun j => j == 1) = some (.ok ()) ∧
+    h0Verdict [10, 11] 1 (fun _ => false) = some (.err (.missingHash 2)) ∧
+    h0Verdict [10, 11, 12] 2 (fun _ => false) = some (.ok ()) ∧
+    -- in agreement with `required` in every one of these cases
+    required (some fun _ => false) 3 (mmr 0) = false ∧ required (some fun j => j == 1) 3 (mmr 0) = true ∧
+    required (some fun _ => false) 4 (mmr 2) = true := by
+  decide +kernel
+
 end GV.Props.C16
